@@ -347,3 +347,22 @@ func flagAlternatives(conds []Cond) [][]Cond {
 	}
 	return [][]Cond{conds}
 }
+
+// goOrdinal numbers the go statements of fn in source order (1-based), for stable obligation keys.
+func goOrdinal(fn *ssa.Function, gi *ssa.Go) int {
+	var all []*ssa.Go
+	for _, b := range fn.Blocks {
+		for _, in := range b.Instrs {
+			if g, ok := in.(*ssa.Go); ok {
+				all = append(all, g)
+			}
+		}
+	}
+	sort.Slice(all, func(i, j int) bool { return all[i].Pos() < all[j].Pos() })
+	for i, g := range all {
+		if g == gi {
+			return i + 1
+		}
+	}
+	return 0
+}
